@@ -488,6 +488,10 @@ impl VerifTable {
     pub fn cursor(&self) -> TableCursor {
         TableCursor::new(Arc::clone(&self.table))
     }
+    /// The partition id the table took from the block cache for its cache keys.
+    pub fn cache_partition_id(&self) -> u64 {
+        self.table.verif_cache_partition_id()
+    }
 }
 
 /// A `FilesEntryIterator` (the iterator over the files of one level >= 1) over table files built
